@@ -36,6 +36,9 @@ void vrt_name_mutex(const void *m, const char *name);
 
 /* threads */
 void vrt_spawn(const char *name, void *(*fn)(void *), void *arg);
+void vrt_spawn_daemon(const char *name, void *(*fn)(void *), void *arg);
+void vrt_daemonize(void);
+void vrt_wait_until(int (*pred)(void *), void *arg);	/* scheduler-level blocking on a side-effect-free predicate */
 const char *vrt_self_name(void);
 int vrt_self(void);
 int vrt_in_model(void);	/* 1 when called from a scheduled model thread */
